@@ -145,7 +145,7 @@ def _arc_cow_order(F, A, b, prs, rep, tag, key=None, need_ref=True):
         i_clone = idx_of(ev, lambda e: e["kind"] == "UCLONE")
         i_helper = idx_of(ev, lambda e: e["kind"] == "CALL" and vget(e["vec"], "uclone") and vget(e["vec"], "alloc") and c04.released(e["vec"]))
         i_new = idx_of(ev, lambda e: vget(e["vec"], "alloc") > 0)
-        i_drop = idx_of(ev, lambda e: e["kind"] == "DROP" and c04.released(e["vec"]) > 0)
+        i_drop = idx_of(ev, lambda e: (e["kind"] == "DROP" or (e["kind"] == "CALL" and not vget(e["vec"], "alloc") and not vget(e["vec"], "uclone"))) and c04.released(e["vec"]) > 0)
         i_gate = idx_of(ev, lambda e: e["kind"] in ("CALL", "HO") and (_is_gate(F, e["detail"].get("callee")) or _fwd_gate_at(F, b, e)))
         # the mutable borrow handed out (payload borrow or &mut Arc -> &mut UniqueArc cast)
         i_ref = _mut_ref_index(ev, A)
